@@ -387,7 +387,14 @@ func (*BinaryStringExprNode) GetType() NodeType {
 func (node *BinaryStringExprNode) IsSeekable() bool {
 	// seeking to the compared value only decides equality: for != the element found by
 	// the seek is the one element that cannot satisfy the predicate
-	return node.op == BinaryOpEQ && (node.left.IsConst() || node.right.IsConst())
+	if node.op != BinaryOpEQ {
+		return false
+	}
+	// the seek positions the cursor among the string keys of the bucket: an element of another type that
+	// renders to the compared string (the number 7 for "7") is never found, so only a string-typed symbol qualifies
+	_, leftIsStr := node.left.(*StringSymbolNode)
+	_, rightIsStr := node.right.(*StringSymbolNode)
+	return (node.right.IsConst() && leftIsStr) || (node.left.IsConst() && rightIsStr)
 }
 
 func (node *BinaryStringExprNode) EvalBoolWithSeek(s Symbols, cursor TypeSeekableSetCursor) bool {
